@@ -114,8 +114,17 @@ func gapOptions(l, r tok) (opts []int, layout bool) {
 		return optsAfterBr, true
 	case r.kind == tOpen || r.kind == tClose:
 		return optsBeforeB, true
+	case closedString(l) && !(strings.HasPrefix(r.text, `"`) && (l.text == `""` || strings.HasPrefix(l.text, `"""`))):
+		// the closing quote completes a string literal: whatever follows it is the next expression, with or
+		// without whitespace in between.  Not layout: a quote right after the EMPTY literal (`"""` opens a raw
+		// string) or after a raw string (where its closing run of quotes ends is the lexer's own business).
+		return optsAfterBr, true
 	}
 	return optsAtoms, true
+}
+
+func closedString(t tok) bool {
+	return t.kind == tAtom && len(t.text) >= 2 && t.text[0] == '"' && t.text[len(t.text)-1] == '"'
 }
 
 func render(b []byte, toks []tok, gaps []int, lead, trail string) []byte {
@@ -479,7 +488,9 @@ func toJs(ns []*node) []jval {
 // items (a string cut by its line end, lone '#', an invalid UTF-8 byte, a
 // truncated float), a bare byte-order mark and a bare U+FFFD to the token alphabet; it is explored for short sequences only.
 var tokAlphabetExt = append(append([]tok{}, tokAlphabet...),
-	tok{"#xF", tAtom}, tok{"#o7", tAtom}, tok{"1", tAtom}, tok{"\"u\n", tAtom}, tok{"#", tAtom}, tok{"\x80", tAtom}, tok{"1.", tAtom}, tok{"\ufeff", tAtom}, tok{"\ufffd", tAtom})
+	tok{"#xF", tAtom}, tok{"#o7", tAtom}, tok{"1", tAtom}, tok{"\"u\n", tAtom}, tok{"#", tAtom}, tok{"\x80", tAtom}, tok{"1.", tAtom}, tok{"\ufeff", tAtom}, tok{"\ufffd", tAtom},
+	// a non-empty string literal without any escape, and the empty one (the base alphabet's string carries an escape)
+	tok{`"t"`, tAtom}, tok{`""`, tAtom})
 
 // seqTokens decodes the idx-th sequence of exactly n tokens of tokAlphabet.
 func (w *seqWorker) seqTokens(n int, idx int64) []tok { return w.seqTokensOver(tokAlphabet, n, idx) }
